@@ -235,12 +235,6 @@ func run(id, tier, repo, verif string, writeEvidence bool) (status int) {
 		all = append(all, r.obs...)
 	}
 
-	// self-validation (thorough): each stored mutant must be reported
-	var mutantReport []map[string]interface{}
-	if tier == "thorough" {
-		mutantReport = selfValidate(p, repo, verif)
-	}
-
 	known := loadKnown(verif)
 	knownKeys := map[string]knownFinding{}
 	for _, k := range known.Findings {
@@ -284,6 +278,12 @@ func run(id, tier, repo, verif string, writeEvidence bool) (status int) {
 			continue
 		}
 		violations = append(violations, a.o)
+	}
+
+	// self-validation (thorough, and only when the tree itself is clean of violations): each stored mutant must be reported
+	var mutantReport []map[string]interface{}
+	if tier == "thorough" && len(violations) == 0 {
+		mutantReport = selfValidate(p, repo, verif)
 	}
 
 	// report
